@@ -113,4 +113,55 @@ theorem tr_rngDrawBits (x : Jsf) (data : List UInt64) (dl : Int64) (persist : Bo
   · simp only [Translated.randomBitStream_drawBits, hge, Go.assert, hle, h64, decide_false, Bool.false_eq_true, if_false,
       if_true, tr_record, Src.next, bind, Except.bind, pure, Except.pure]
 
+/-! ### `beginGroup`, `endGroup`: the steps of `recGo` -/
+
+/-- a `groupInfo` of the source as the model's `GI` -/
+def giOf (g : Translated.groupInfo) : GI := ⟨g.label, g.standalone, g.begin.toInt.toNat, g.end_.toInt, g.discard⟩
+
+theorem tr_beginGroup (data : List UInt64) (groups : List Translated.groupInfo) (dl : Int64) (l : String) (s : Bool)
+    (hd : data.length < 2 ^ 62) (hg : groups.length + 1 < 2 ^ 62) :
+    ∃ g, Translated.recordedBits_beginGroup data groups dl true l s =
+        .ok (Int64.ofNat groups.length, data, groups ++ [g], dl, true) ∧
+      giOf g = ⟨l, s, data.length, -1, false⟩ := by
+  refine ⟨{ begin := Go.glen data, end_ := -1, label := l, standalone := s, discard := false }, ?_, ?_⟩
+  · simp only [Translated.recordedBits_beginGroup, Bool.not_true, Bool.false_eq_true, if_false, pure, Except.pure]
+    have : Go.glen (groups ++ [({ begin := Go.glen data, end_ := -1, label := l, standalone := s, discard := false } : Translated.groupInfo)])
+        - 1 = Int64.ofNat groups.length := by
+      apply Int64.toInt_inj.mp
+      have h1 : (Go.glen (groups ++ [({ begin := Go.glen data, end_ := -1, label := l, standalone := s, discard := false } : Translated.groupInfo)])).toInt
+          = (groups.length + 1 : Nat) := by rw [glen_toInt _ (by simpa using hg)]; simp
+      rw [Int64.toInt_sub, h1, i64_ofNat_toInt (by omega)]
+      have : (1 : Int64).toInt = 1 := rfl
+      rw [this]
+      have e : ((groups.length + 1 : Nat) : Int) - 1 = (groups.length : Int) := by omega
+      rw [e]
+      apply Int.bmod_eq_of_le <;> omega
+    rw [this]
+  · simp [giOf, glen_toInt _ hd]
+
+theorem tr_endGroup (data : List UInt64) (groups : List Translated.groupInfo) (dl : Int64) (i : Nat) (d : Bool)
+    (hi : i < groups.length) (hg : groups.length < 2 ^ 62) :
+    Translated.recordedBits_endGroup data groups dl true (Int64.ofNat i) d =
+      if d || decide (Go.glen data > (groups[i]).begin) then
+        .ok (data, groups.modify i (fun g => { g with end_ := Go.glen data, discard := d }), dl, true)
+      else .error .assertion := by
+  have hi62 : i < 2 ^ 62 := by omega
+  have hidx : Go.idx groups (Int64.ofNat i) = .ok groups[i] := by
+    rw [idx_ofNat _ hi62]; simp [hi]
+  have hset : ∀ (gs : List Translated.groupInfo) (f : Translated.groupInfo → Translated.groupInfo), gs.length = groups.length →
+      Go.setIdx gs (Int64.ofNat i) f = .ok (gs.modify i f) := by
+    intro gs f hl
+    rw [setIdx_ofNat _ hi62]; simp [hl, hi]
+  simp only [Translated.recordedBits_endGroup, Bool.not_true, Bool.false_and, Bool.or_false, hidx, Go.andThen, Go.orElse, pure,
+    Except.pure, bind, Except.bind, Bool.false_eq_true, if_false]
+  cases d with
+  | true =>
+    simp only [Go.assert, Bool.true_or, if_true, hset groups _ rfl, hset (groups.modify i _) _ (by simp)]
+    simp only [List.modify_modify_eq]; rfl
+  | false =>
+    by_cases hgt : Go.glen data > (groups[i]).begin
+    · simp only [hgt, decide_true, Go.assert, Bool.false_or, if_true, hset groups _ rfl, hset (groups.modify i _) _ (by simp)]
+      simp only [List.modify_modify_eq]; rfl
+    · simp [hgt, Go.assert]
+
 end Rapid
